@@ -178,7 +178,7 @@ func init() {
 					unknowns := []string{"nosuch", "a" + ext, "sub", "", "../t/a", "a.bak"}
 					for k, n := range wantNames {
 						if k < 3 || k == len(wantNames)-1 {
-							unknowns = append(unknowns, "/"+n, "//"+n, "./"+n, n+"/", n+ext, " "+n, n+" ", strings.ToUpper(n), filepath.Base(n)+"/../"+n, "\\"+n)
+							unknowns = append(unknowns, "/"+n, "//"+n, "./"+n, n+"/", n+ext, " "+n, n+" ", strings.ToUpper(n), filepath.Base(n)+"/../"+n, "\\"+n, strings.ReplaceAll(n, "/", "\\"), strings.ReplaceAll("sub/"+n, "/", "\\"), n+"\\", ".\\"+n)
 						}
 					}
 					for _, unknown := range unknowns {
